@@ -71,10 +71,18 @@ def splitLinesAux : Str → Str → List Str
 
 def splitLines (bytes : Str) : List Str := splitLinesAux bytes []
 
-/-- `parser::begin() … end()`: `get_input` skips blank lines, parses, and repeats while the
-    filter hook rejects the record -/
-def records (dl : Dialect) (filter : List Str → Bool) (lines : List Str) : List (List Str) :=
-  ((lines.filter (fun l => !isBlank l)).map (parseLine dl)).filter filter
+/-- `filter_hook_t = std::function<bool (record_t &)>`: the hook is handed the record by reference –
+    it may rewrite it – and says whether the record is kept.  `none` = rejected, `some r'` = kept as
+    `r'`.  No hook installed (`nullptr`) is `some`. -/
+abbrev Hook := List Str → Option (List Str)
+
+/-- a hook that only filters -/
+def Hook.ofPred (f : List Str → Bool) : Hook := fun r => if f r then some r else none
+
+/-- `parser::begin() … end()`: `get_input` skips blank lines, parses, hands the parsed record to the
+    hook and repeats while the hook rejects it -/
+def records (dl : Dialect) (hook : Hook) (lines : List Str) : List (List Str) :=
+  ((lines.filter (fun l => !isBlank l)).map (parseLine dl)).filterMap hook
 
 /-! ### number recognition: supplied from outside (strtod / std::stod / std::stoi) -/
 
